@@ -52,7 +52,6 @@ CFG = {
         "Swat4.C16.mark_preserved_probeRetry",
         "Swat4.C16.pop_strict_held",
         "Swat4.C16.pop_complete_backed",
-        "Swat4.C16.runner_is_model",
         "Swat4.C16.runner_complete_backed",
         # progress surrogate: every chain of retries for one mark ends (prober batches alone, explicit scheduling hypotheses)
         "Swat4.C16.probe_progress",
@@ -60,6 +59,14 @@ CFG = {
         "Swat4.C16.Progress.probe_step_progress",
         "Swat4.C16.Progress.popMany_fit",
         "Swat4.C16.facts_item_id_uses",
+    ],
+    # proved in the Lean files (and built with the module) but NOT audited as property theorems: each is a read-back of a
+    # definition, glue between two names, true by type, or a restatement of an audited theorem
+    "supporting": [
+        {"name": "Swat4.C16.runner_is_model", "why": "`rfl`: the program the driver runs for a pop client is `UC.proberRun` by definition of `USpec.prog`; the content is runner_complete_backed / pop_complete_backed"},
+        {"name": "Swat4.C16.discover_order", "why": "shape lemma, definitional (`UC.maybeDiscoverPort` unfolded: enqueue before mark); the property statements are report_backed(_strict)"},
+        {"name": "Swat4.C16.submission_order", "why": "shape lemma, definitional (`UC.discoverServer` unfolded); the property statements are addServer_backed(_strict)"},
+        {"name": "Swat4.C16.retry_order", "why": "shape lemma, definitional (`UC.probeRetry` unfolded under retries < max); the property statements are probeRetry_backed(_strict)"},
     ],
     "shards": (1, 16),
     "nontrivial": _nontrivial,
@@ -114,7 +121,7 @@ CFG = {
                 "revival, both cleaners and the prober's retry never clear a retry bit of a row that stays, at every crash/fault point (only HandleSuccess/HandleFailure do); "
                 "pop_strict_held — after PopMany from a BackedStrict store every mark is backed by a queued non-expiring probe or by a probe the call returned; "
                 "pop_complete_backed — a fault-free prober batch (UC.proberRunWith of Model/UseCases/ProberRun.lean: PopMany n, then probeserver for every popped probe to completion, any order, any outcomes) "
-                "ends BackedStrict again; runner_is_model — the program the driver runs for a pop client IS the Model's UC.proberRun (definitional; the driver only renders its report), "
+                "ends BackedStrict again; runner_is_model [supporting, `rfl`, not audited] — the program the driver runs for a pop client IS the Model's UC.proberRun (definitional; the driver only renders its report), "
                 "runner_complete_backed — hence pop_complete_backed holds of the driver's pop client itself (UC.sortBatch is a reordering). "
                 "stale_readd_unbacked: a further race in the model (no crash, no fault; needs a popper and a removal between a reporter's lookup and "
                 "its Add, which stores the stale marked copy) — outside the harness' scenarios, reported. "
